@@ -546,11 +546,26 @@ func main() {
 	}
 	both := []int{pg.ModelT, pg.ModelS}
 	all, core := pg.OpsFor(false, false), pg.OpsFor(true, false)
+	// mergeGroups appends the pending groups to the work list round-robin: a run
+	// cut by the deadline has covered a part of each
+	mergeGroups := func() {
+		for more := true; more; {
+			more = false
+			for gi := range groups {
+				if len(groups[gi]) > 0 {
+					items = append(items, groups[gi][0])
+					groups[gi] = groups[gi][1:]
+					more = true
+				}
+			}
+		}
+		groups = nil
+	}
 	var plan string
 	onlyT, onlyS := []int{pg.ModelT}, []int{pg.ModelS}
 	fins := pg.FinsFor(false, false)
-	if !thorough {
-		// quick: a closed, load-independent slice.
+	{
+		// quick: a closed, load-independent slice (thorough runs it first).
 		// executed slice: every program with <=1 call, every finisher
 		for _, s := range pg.Shapes(onlyT, pg.Seqs(pg.OpsFor(false, true), 0, 1), fins) {
 			items = append(items, item{s, false, true, 1, pg.PathClasses, false})
@@ -564,27 +579,19 @@ func main() {
 		// model chosen cyclically, default classes plus one deviating slot per call
 		addPairwise(pg.CyclicShapes(both, pg.Seqs(all, 2, 2), fins, 3))
 		plan = fmt.Sprintf("quick = <=1 call over %d calls x %d finishers x {model T with <=1 slot deviating from its default class over all classes, model S with default classes} x 2 dialects; every ordered pair of calls (2-call programs) x 3 finishers and a model chosen cyclically (pairwise cover of call x call, call x finisher) with the default classes and, per call, one deviating slot whose (slot, class) cycles over the partner calls (pairwise cover of slot x class x position) x 2 dialects; executed slice = every program with <=1 call on SQLite behind the recording driver (model T with <=1 slot deviating over %d path classes, model S default)", len(all), len(fins), len(pg.PathClasses))
-	} else {
+	}
+	if thorough {
+		mergeGroups()
 		for _, s := range pg.Shapes(both, pg.Seqs(pg.OpsFor(false, true), 0, 1), fins) {
 			items = append(items, item{s, false, true, 1, nil, false})
 		}
 		addDry(pg.Shapes(both, pg.Seqs(all, 0, 1), pg.FinsFor(false, false)), 2, nil)
 		addDry(pg.Shapes(both, pg.Seqs(all, 2, 2), pg.FinsFor(false, false)), 1, nil)
 		addDry(pg.Shapes([]int{pg.ModelT}, pg.Seqs(core, 3, 3), pg.FinsFor(true, false)), 1, nil)
-		plan = fmt.Sprintf("<=1 call over %d calls x %d finishers x 2 models with <=2 deviating slots (second deviation over %d path classes); 2 calls x all finishers x 2 models with <=1 deviating slot; 3 calls over the reduced alphabet of %d calls x %d representative finishers x model T with <=1 deviating slot", len(all), len(pg.FinsFor(false, false)), len(pg.PathClasses), len(core), len(pg.FinsFor(true, false)))
+		plan = "thorough = the quick slice first [" + plan + "]; then (interleaved) " + fmt.Sprintf("<=1 call over %d calls x %d finishers x 2 models with <=2 deviating slots (second deviation over %d path classes); 2 calls x all finishers x 2 models with <=1 deviating slot; 3 calls over the reduced alphabet of %d calls x %d representative finishers x model T with <=1 deviating slot", len(all), len(pg.FinsFor(false, false)), len(pg.PathClasses), len(core), len(pg.FinsFor(true, false)))
 	}
 
-	// merge the groups round-robin: a run cut by the deadline has covered a part of each
-	for more := true; more; {
-		more = false
-		for gi := range groups {
-			if len(groups[gi]) > 0 {
-				items = append(items, groups[gi][0])
-				groups[gi] = groups[gi][1:]
-				more = true
-			}
-		}
-	}
+	mergeGroups()
 
 	st := &stats{}
 	samples := &mc.Samples{N: 8}
@@ -639,7 +646,9 @@ func main() {
 	pprof.StopCPUProfile()
 
 	exhaustive := timedOut == 0 && tooMany == 0
-	if run.NumViolations() == 0 {
+	// non-vacuity floors judge a COMPLETE enumeration; a run cut by its deadline
+	// reports exhaustive:false instead
+	if run.NumViolations() == 0 && exhaustive {
 		if skeletons.Len() < 1000 {
 			run.HarnessError("vacuous: only %d distinct SQL skeletons", skeletons.Len())
 		}
